@@ -279,6 +279,7 @@ def run_policy_case(case):
     class VQ:
         def __init__(self):
             self.arr = [(t, None if m == 'END' else (i + 1, m)) for i, (t, m) in enumerate(case['arr'])]
+            self.got = []          # clock value at which each message was handed out
 
         def get(self, block=True, timeout=None):
             if not self.arr:
@@ -290,6 +291,7 @@ def run_policy_case(case):
             if timeout is None or t <= clock['now'] + timeout:
                 clock['now'] = max(clock['now'], t)
                 self.arr.pop(0)
+                self.got.append(clock['now'])
                 return m
             clock['now'] += timeout
             raise _q.Empty
@@ -305,6 +307,7 @@ def run_policy_case(case):
     _worker.perf_counter = lambda: clock['now']
     out = []
     finished = False
+    taken = 0
     try:
         try:
             while True:
@@ -312,9 +315,13 @@ def run_policy_case(case):
                 if b is None:
                     finished = True
                     break
-                out.append([[v[1] for v in b], clock['now']])
+                # third component: the clock when the batch's first element left the buffer (the model's first_t)
+                vq = w._batch_buffer
+                first_t = vq.got[taken] if taken < len(vq.got) else -1
+                taken += len(b)
+                out.append([[v[1] for v in b], clock['now'], first_t])
                 if not w._batch_get_called.is_set():
-                    out.append([[-999], -1])        # the collector must be told that a batch was taken
+                    out.append([[-999], -1, -1])        # the collector must be told that a batch was taken
                 w._batch_get_called.clear()
         except _Blocked:
             finished = False
